@@ -34,6 +34,8 @@ func main() {
 		switch os.Args[2] {
 		case "C05":
 			checkC05(tier)
+		case "C16":
+			checkC16(tier)
 		default:
 			usage()
 		}
